@@ -7,7 +7,7 @@ serialize(v) == serialize(type(v), v) wiring; key discipline of update_result.
 """
 import ast
 
-from ..boolx import Unknown, show, valuations
+from ..boolx import BoolEval, Unknown, show, valuations
 from ..model import AnalysisError
 from ..util import dotted, norm, short, walk_no_nested
 from ..visitors import totality
@@ -142,6 +142,60 @@ def check(ctx):
     ctx.rule("C04.R5", "every child method held by a node / field strategy is applied to the matching part of the object", floor=40)
     children_rule(ctx, "C04.R5", "ser")
 
+    # ---------------- R6
+    ctx.rule("C04.R6", "a container is returned as is only when its static class guarantees a JSON builtin (list / dict) or the matching pass_through option is set", floor=4)
+    passthrough_rule(ctx)
+
+
+def passthrough_rule(ctx):
+    model = ctx.model
+    expected = {
+        "collection": (lambda v: (v["no_copy"] and v["is_list"]) or (v["pt_tuple"] and v["is_tuple"]) or (v["pt_coll"] and not v["is_set"]), "list"),
+        "mapping": (lambda v: (v["no_copy"] and v["is_dict"]) or v["pt_coll"], "dict"),
+    }
+    names = ["no_copy", "pt_tuple", "pt_coll", "is_list", "is_tuple", "is_set", "is_dict"]
+    classes = {"list": "is_list", "tuple": "is_tuple", "collections.abc.Set": "is_set", "Set": "is_set", "AbstractSet": "is_set", "dict": "is_dict"}
+    for hook, (want, builtin) in expected.items():
+        fi = model.func(f"{SER_VISITOR}.{hook}")
+        wrong_direction = []
+
+        def special(e, _):
+            if isinstance(e, ast.Call) and dotted(e.func) == "issubclass" and len(e.args) == 2:
+                a, b = e.args
+                if norm(a) == "cls" and (dotted(b) or "") in classes:
+                    atom = classes[dotted(b)]
+                    return lambda v: v[atom]
+                if norm(b) == "cls":
+                    wrong_direction.append(e)
+                    return lambda v: True
+            return None
+
+        ev = BoolEval({"self.no_copy": "no_copy", "self.pass_through_options.tuple": "pt_tuple", "self.pass_through_options.collections": "pt_coll"}, special=special)
+        pdef = [n for n in walk_no_nested(fi.node) if isinstance(n, ast.Assign) and norm(n.targets[0]) == "passthrough"]
+        if len(pdef) != 1:
+            ctx.fail("C04.R6", f"{fi.qualname}:passthrough", None, f"{hook}() no longer computes a single `passthrough` predicate", fi.module.relpath, fi.node.lineno)
+            continue
+        try:
+            got = ev.compile(pdef[0].value)
+            bad = None
+            for v in valuations(names, lambda v: sum((v["is_list"], v["is_tuple"], v["is_set"], v["is_dict"])) <= 1):
+                if bool(got(v)) != bool(want(v)):
+                    bad = v
+                    break
+        except Unknown as err:
+            ctx.undecided("C04.R6", f"{fi.qualname}: {err}")
+            continue
+        for e in wrong_direction:
+            ctx.fail("C04.R6", f"{fi.qualname}:direction", e, f"`{norm(e)}` tests that the annotation is a supertype of the builtin: an abstract annotation (Mapping, Sequence) then lets any runtime value through unchanged, e.g. a MappingProxyType, which is not JSON data", fi.module.relpath, e.lineno)
+        ctx.check(bad is None, "C04.R6", f"{fi.qualname}:passthrough", pdef[0],
+                  f"pass-through predicate differs from the documented one under [{show(bad) if bad else ''}]: the value is " + ("returned as is although nothing guarantees a builtin container" if bad and got(bad) else "copied although pass-through was requested"),
+                  fi, pdef[0], detail="truth table over no_copy / pass_through options / static class")
+        # IDENTITY only under the predicate; otherwise the builtin constructor
+        for n in walk_no_nested(fi.node):
+            if isinstance(n, ast.IfExp) and "IDENTITY_METHOD" in norm(n):
+                ok = norm(n.test) == "passthrough" and norm(n.body) == "IDENTITY_METHOD" and norm(n.orelse) == f"METHODS[{builtin}]"
+                ctx.check(ok, "C04.R6", f"{fi.qualname}:identity", n, f"`{short(n, 70)}`: identity is selected outside the pass-through predicate, or the copy is not METHODS[{builtin}]", fi, n, detail=f"IDENTITY_METHOD if passthrough else METHODS[{builtin}]")
+
 
 def mutants(mb):
     S = "apischema/serialization/__init__.py"
@@ -168,5 +222,10 @@ def mutants(mb):
     mb.add_text("mapping-key-raw", M, "            self.key_method.serialize(key, key): self.value_method.serialize(value, key)", "            key: self.value_method.serialize(value, key)", "C04.R5", "MappingMethod.key_method")
     mb.add_text("simple-field-raw", M, "        result[self.alias] = self.method.serialize(getattr(obj, self.name), self.alias)", "        result[self.alias] = getattr(obj, self.name)", "C04.R5", "SimpleField.method")
     mb.add_text("object-fields-skipped", M, "            field.update_result(obj, result)", "            pass", "C04.R5", "fields")
+    mb.add_text("mapping-passthrough-supertype", S, "            issubclass(cls, dict) and self.no_copy\n", "            self.no_copy and issubclass(dict, cls)\n", "C04.R6", "mapping")
+    mb.add_text("collection-passthrough-any-nocopy", S, "            (self.no_copy and issubclass(cls, list))\n", "            self.no_copy\n", "C04.R6", "collection:passthrough")
+    mb.add_text("collection-set-passthrough", S, "                and not issubclass(cls, collections.abc.Set)\n", "", "C04.R6", "collection:passthrough")
+    mb.add_text("discriminate-falls-off", S, "            # TypedDict instances cannot be told apart without their discriminator field\n            raise TypeError(f\"{Union[tuple(types)]} can't be discriminated\")\n", "", "C04.R1", "discriminate:returns")
+    mb.add_text("neg-passthrough-reordered", S, "            issubclass(cls, dict) and self.no_copy\n", "            self.no_copy and issubclass(cls, dict)\n", negative=True)
     mb.add_text("neg-flag-reordered", S, "                    is_union_of(field.type, UndefinedType)\n                    or field_default is Undefined,\n", "                    field_default is Undefined\n                    or is_union_of(field.type, UndefinedType),\n", negative=True)
     mb.add_text("neg-property-instead-of-call", S, "                    is_union_of(field.type, UndefinedType)\n                    or field_default is Undefined,\n", "                    field.undefined or field_default is Undefined,\n", negative=True)
